@@ -1,6 +1,7 @@
 package main
 
 import (
+	"encoding/json"
 	"flag"
 	"fmt"
 	"os"
@@ -46,6 +47,8 @@ func main() {
 		os.Exit(cmdCheck(os.Args[1], os.Args[2:]))
 	case "dump":
 		os.Exit(cmdDump(os.Args[2:]))
+	case "replay":
+		os.Exit(cmdReplay(os.Args[2:]))
 	default:
 		fmt.Fprintln(os.Stderr, "unknown command", os.Args[1])
 		os.Exit(2)
@@ -57,6 +60,7 @@ type checkFlags struct {
 	timeout                               int
 	verbose                               bool
 	workers                               int
+	refuteK                               int
 }
 
 func parseFlags(args []string) *checkFlags {
@@ -72,6 +76,7 @@ func parseFlags(args []string) *checkFlags {
 	fs.IntVar(&cf.timeout, "timeout", 0, "per-obligation timeout (s)")
 	fs.IntVar(&cf.workers, "j", 0, "parallel obligations")
 	fs.BoolVar(&cf.verbose, "v", false, "verbose")
+	fs.IntVar(&cf.refuteK, "refute", 0, "debug: generate the bounded counterexample-search VC with this unroll bound")
 	fs.Parse(args)
 	if cf.timeout == 0 {
 		cf.timeout = 20
@@ -118,6 +123,10 @@ func generate(eng *Eng, cf *checkFlags) []*FuncResult {
 			results = append(results, &FuncResult{Name: full, Props: f.Props, Assumed: f.Assumed})
 			continue
 		}
+		if cf.refuteK > 0 {
+			results = append(results, eng.RefuteFunc(f, cf.refuteK))
+			continue
+		}
 		results = append(results, eng.VerifyFunc(f))
 	}
 	for _, l := range ls {
@@ -151,6 +160,54 @@ func cmdDump(args []string) int {
 		for _, ob := range r.VC.Obs {
 			fmt.Printf("; ===== %s (%s)\n%s\n", ob.Name, ob.Pos, ob.Script(0, true))
 		}
+	}
+	return 0
+}
+
+// cmdReplay re-runs the test recorded in a replay file against the current tree.
+func cmdReplay(args []string) int {
+	var path string
+	repo := "/repo"
+	for i := 0; i < len(args); i++ {
+		switch args[i] {
+		case "-repo":
+			i++
+			repo = args[i]
+		case "-verif":
+			i++
+		default:
+			path = args[i]
+		}
+	}
+	var rp map[string]interface{}
+	if err := loadJSON(path, &rp); err != nil {
+		fmt.Fprintln(os.Stderr, err)
+		return 2
+	}
+	fmt.Printf("obligation: %v\nresult: %v (%v)\nrecorded: %v\n", rp["obligation"], rp["result"], rp["solver"], rp["replay"])
+	src, _ := rp["test_source"].(string)
+	dir, _ := rp["pkg_dir"].(string)
+	if src == "" || dir == "" {
+		fmt.Println("no executable replay recorded (no-failing-input-found); solver output:")
+		fmt.Println(rp["solver_output"])
+		return 0
+	}
+	ro, out, err := runReplayTest(repo, dir, src)
+	if err != nil {
+		fmt.Println("replay did not run:", err)
+		fmt.Println(out)
+		return 2
+	}
+	b, _ := json.MarshalIndent(ro, "", " ")
+	fmt.Printf("outcome on the current tree:\n%s\n", b)
+	failed := ro.Panicked
+	for _, v := range ro.Clauses {
+		if v == "false" {
+			failed = true
+		}
+	}
+	if failed {
+		return 1
 	}
 	return 0
 }
